@@ -583,10 +583,14 @@ func evaluate(w *workspace, c *Case) verdict {
 		}
 	case "json":
 		got, perr = parseJSON(dir, res.stdout)
-		full = func(p Prob) string { return fmt.Sprintf("%s end=%d:%d severity=%s", p.key(), p.EndLine, p.EndCol, p.Sev) }
+		full = func(p Prob) string {
+			return fmt.Sprintf("%s end=%d:%d severity=%s", p.key(), p.EndLine, p.EndCol, p.Sev)
+		}
 	case "sarif":
 		got, _, perr = parseSARIF(dir, res.stdout)
-		full = func(p Prob) string { return fmt.Sprintf("%s end=%d:%d suppressed=%v", p.key(), p.EndLine, p.EndCol, p.Suppressed) }
+		full = func(p Prob) string {
+			return fmt.Sprintf("%s end=%d:%d suppressed=%v", p.key(), p.EndLine, p.EndCol, p.Suppressed)
+		}
 	default:
 		return verdict{infra: "unknown format " + c.Format}
 	}
@@ -669,6 +673,9 @@ func tokenClasses(l *[]string, where string, add func(string)) {
 		case le == "inherit":
 			add("tok_inherit")
 			canon = "inherit"
+			if body != canon {
+				add("tok_inherit_nonstandard_case")
+			}
 		case le == "all":
 			add("tok_all")
 			canon = "all"
